@@ -1,10 +1,36 @@
 import Autd3.Model.Fw
+import Autd3.Lemmas.SilGuardWitness
 /-!
 # C08 — strict silencer mode can never be circumvented
+
 First layer: the guard predicate and the validation tables, for every register value.
+
+Second layer (unbounded, all states / bytes / histories), about the executable firmware model
+`Autd3.Fw` (lemmas in `Lemmas/SilGuard*.lean`):
+
+* `rejected_changes_nothing*` — a handler / payload / frame answered with `ERR_INVALID_SILENCER_SETTING`
+  returns the *whole* `State` unchanged.  Exactly two private CPU cursors may already have been
+  touched when the guard refuses: `write_mod` has reset `modCycle := 0`, `write_gain_stm` has latched
+  `gainStmMode`; neither is read by any `Obs.*` accessor nor by the guard (they only steer where the
+  continuation frames of an in-flight multi-frame write go).  At frame level `ack`, `lastMsgId` and
+  `rxData` change in addition.
+* `inv_new`, `inv_frame`, `inv_tick`, `silencer_inv`, `silencer_guard` — the inductive invariant
+  `Inv = Core ∧ GainOk` (`Lemmas/SilGuardInv.lean`): CPU belief = FPGA request registers, CPU guard copy
+  = FPGA registers, guard holds for the believed segments; it holds after `CPUEmulator::new`, is
+  preserved by every frame whose Modulation / FociSTM / GainSTM payloads are complete single-frame
+  writes (any other tag, also unknown ones, both slots, any acknowledgement including
+  `ERR_MISS_TRANSITION_TIME`), by clock ticks and thermal events; hence the property on `Obs`.
+* `silencer_inv_multiframe_partial` — every frame of a multi-frame write *without* transition
+  (all prefixes, i.e. aborted sends) keeps `Core`, provided a `GainSwapSegment` is only sent to a
+  segment satisfying `GainOkAt`.  Excluded, with kernel-checked counterexample traces: F8b
+  (transition-carrying BEGIN frame) and F8c (cut write to a segment holding a plain Gain, then
+  `GainSwapSegment`).
+
+Deviation from the brief: the CPU's strict copy is *implied by* — not equivalent to — the strict bit
+of `ADDR_SILENCER_FLAG`: `clear` sets `silencer_strict_mode = true` but writes 0 to the flag register.
 -/
 namespace Autd3.C08
-open Autd3 Autd3.Fw Autd3.Gen
+open Autd3 Autd3.Fw Autd3.Gen Autd3.SilGuard
 
 /-- `validate_silencer_settings` accepts exactly when strict mode is off or both sampling divisions
 respect the configured completion steps -/
@@ -34,5 +60,177 @@ theorem transition_table : ∀ (mode : Fin 256) (same finite : Bool),
        else if same ∨ ¬ finite then (mode.val = 0 ∨ mode.val = 1 ∨ mode.val = 2)
        else (mode.val = 0xFF ∨ mode.val = 0xF0)) := by
   decide +kernel
+
+/-! ## rejected_changes_nothing -/
+
+/-- **rejected_changes_nothing** (handler level): each of the seven handlers that can answer
+`ERR_INVALID_SILENCER_SETTING` returns, with that answer, the state it was given — every field, for
+every state and every payload bytes; `write_mod` has only reset its write cursor `modCycle`,
+`write_gain_stm` has only latched `gainStmMode` -/
+theorem rejected_changes_nothing (s s' : State) (d : Array Nat) :
+    (configSilencer s d = .ok (s', Cpu.ERR_INVALID_SILENCER_SETTING) → s' = s) ∧
+    (writeMod s d = .ok (s', Cpu.ERR_INVALID_SILENCER_SETTING) → s' = { s with modCycle := 0 }) ∧
+    (changeModSegment s d = .ok (s', Cpu.ERR_INVALID_SILENCER_SETTING) → s' = s) ∧
+    (writeFociStm s d = .ok (s', Cpu.ERR_INVALID_SILENCER_SETTING) → s' = s) ∧
+    (changeFociStmSegment s d = .ok (s', Cpu.ERR_INVALID_SILENCER_SETTING) → s' = s) ∧
+    (writeGainStm s d = .ok (s', Cpu.ERR_INVALID_SILENCER_SETTING) →
+      s' = { s with gainStmMode := u8at d FwLayout.GainSTMHead_mode_off }) ∧
+    (changeGainStmSegment s d = .ok (s', Cpu.ERR_INVALID_SILENCER_SETTING) → s' = s) :=
+  ⟨fun h => configSilencer_rejected s d _ h rfl, fun h => writeMod_rejected s d _ h rfl,
+   fun h => changeModSegment_rejected s d _ h rfl, fun h => writeFociStm_rejected s d _ h rfl,
+   fun h => changeFociStmSegment_rejected s d _ h rfl, fun h => writeGainStm_rejected s d _ h rfl,
+   fun h => changeGainStmSegment_rejected s d _ h rfl⟩
+
+/-- **rejected_changes_nothing** (dispatch level): whatever the tag byte (all 19 handlers and unknown
+tags), a payload answered with `ERR_INVALID_SILENCER_SETTING` leaves every field of the state unchanged
+except possibly the two private cursors `modCycle`, `gainStmMode` -/
+theorem rejected_changes_nothing_dispatch (s s' : State) (d : Array Nat)
+    (h : handlePayload s d = .ok (s', Cpu.ERR_INVALID_SILENCER_SETTING)) :
+    s' = { s with modCycle := s'.modCycle, gainStmMode := s'.gainStmMode } :=
+  handlePayload_rejected s d _ h rfl
+
+/-- **rejected_changes_nothing** (frame level, first slot refused): `ecat_recv` returns the state in which
+the slot was handled (`preState`: message id latched, read-back byte refreshed) with `ack` = the error
+code; the second slot is not executed and `CTL_FLAG` is not rewritten -/
+theorem rejected_changes_nothing_first_slot (s s' s1 : State) (f : Array Nat)
+    (hid : s.lastMsgId ≠ u8at f DrvLayout.Header_msg_id_off)
+    (hmsb : u8at f DrvLayout.Header_msg_id_off &&& 0x80 = 0)
+    (h1 : handlePayload (preState s f) (slot1 f) = .ok (s1, Cpu.ERR_INVALID_SILENCER_SETTING))
+    (h : ecatRecv s f = .ok s') :
+    s' = { s1 with ack := Cpu.ERR_INVALID_SILENCER_SETTING } ∧
+    s' = { preState s f with ack := s'.ack, modCycle := s'.modCycle, gainStmMode := s'.gainStmMode } :=
+  ecatRecv_rejected_first s s' s1 f hid hmsb h1 h
+
+/-- **rejected_changes_nothing** (frame level, single-operation frame, stated on the result alone): if
+`ecat_recv` ends with `ack = ERR_INVALID_SILENCER_SETTING`, nothing but `ack`, `lastMsgId`, `rxData` and
+the two private cursors differs from the state before the frame — in particular `ctl`, `phaseCorr`,
+`pwe`, the four memories, both swap chains, `strict`/`minDivI`/`minDivP`, both segment beliefs and all
+per-segment CPU copies are equal -/
+theorem rejected_changes_nothing_frame (s s' : State) (f : Array Nat)
+    (hslot : u16at f DrvLayout.Header_slot_2_offset_off = 0)
+    (h : ecatRecv s f = .ok s') (hack : s'.ack = Cpu.ERR_INVALID_SILENCER_SETTING) :
+    s' = { s with ack := s'.ack, lastMsgId := s'.lastMsgId, rxData := s'.rxData,
+                  modCycle := s'.modCycle, gainStmMode := s'.gainStmMode } :=
+  ecatRecv_rejected_single s f hslot s' h hack
+
+/-! ## the inductive invariant -/
+
+/-- the invariant holds for the state built by `CPUEmulator::new`, for every transducer count and clock -/
+theorem inv_new (n t : Nat) (s : State) (h : Fw.new n t = .ok s) : Inv s := new_inv n t s h
+
+/-- `clear` establishes the invariant from any state whose controller BRAM has its 256 registers -/
+theorem inv_clear (s s' : State) (d : Array Nat) (ack : Nat) (hs : s.ctl.size = 256)
+    (h : clear s d = .ok (s', ack)) : Inv s' := clear_inv s d hs _ h
+
+/-- one frame: if both slots satisfy `FrameOk` (only Modulation / FociSTM / GainSTM payloads are
+constrained: complete single-frame write, UPDATE flag iff a transition mode is carried, GainSTM with a
+defined mode and ≥ 2 patterns) then `ecat_recv` preserves the invariant — whatever it acknowledges -/
+theorem inv_frame (s s' : State) (f : Array Nat) (h : Inv s) (hf : FrameOk f)
+    (hr : ecatRecv s f = .ok s') : Inv s' := ecatRecv_inv s f h hf s' hr
+
+/-- a swap request whose SysTime deadline was missed has already written the request register; the
+belief was moved as well, so the invariant survives `ERR_MISS_TRANSITION_TIME` -/
+theorem inv_miss_transition_time (s s' : State) (d : Array Nat) (h : Inv s)
+    (hr : changeFociStmSegment s d = .ok (s', Cpu.ERR_MISS_TRANSITION_TIME)) : Inv s' :=
+  have hs := changeFociStmSegment_step s d h.core _ hr
+  ⟨hs.1, hs.2 h.gainOk trivial⟩
+
+/-- clock ticks (`update_with_sys_time`) preserve the invariant -/
+theorem inv_tick (s s' : State) (t : Nat) (h : Inv s) (hr : updateWithSysTime s t = .ok s') : Inv s' :=
+  h.congr (updateWithSysTime_view s t s' hr)
+
+/-- histories from any state satisfying the invariant (e.g. the state after a `Clear`) keep it -/
+theorem inv_run (as : List Action) (s s' : State) (h : Inv s) (hok : ∀ a ∈ as, ActionOk a)
+    (hr : run s as = .ok s') : Inv s' := run_inv as s h hok s' hr
+
+/-- **silencer_inv**: every history (frames satisfying `FrameOk`, clock ticks, thermal events, in any
+order and number) from a freshly constructed device ends in a state satisfying the invariant -/
+theorem silencer_inv (n t : Nat) (as : List Action) (s0 s : State) (h0 : Fw.new n t = .ok s0)
+    (hok : ∀ a ∈ as, ActionOk a) (hr : run s0 as = .ok s) : Inv s :=
+  run_inv as s0 (new_inv n t s0 h0) hok s hr
+
+/-- **the property's statement** on the read-back accessors: after any such history the requested
+segments read back without panic, and if the CPU is strict — in particular if the FPGA's flag register
+says fixed-completion-steps mode with the strict bit — the requested STM segment's division is at least
+`max(steps_intensity, steps_phase)` and the requested modulation segment's is at least `steps_intensity` -/
+theorem silencer_guard (n t : Nat) (as : List Action) (s0 s : State) (h0 : Fw.new n t = .ok s0)
+    (hok : ∀ a ∈ as, ActionOk a) (hr : run s0 as = .ok s) :
+    ∃ rs rm, Obs.reqStmSeg s = .ok rs ∧ Obs.reqModSeg s = .ok rm ∧
+      ((s.strict = true ∨ (Obs.silencerFixedUpdateRateMode s = false ∧ strictBit s = true)) →
+        ∀ i p, Obs.silencerCompletionSteps s = .ok (i, p) →
+          max i p ≤ Obs.stmDiv s rs ∧ i ≤ Obs.modDiv s rm) :=
+  (silencer_inv n t as s0 s h0 hok hr).core.guard_obs
+
+/-
+Full statement wanted (DESIGN §5): the same for EVERY prefix of EVERY multi-frame send.  It is false on
+this tree (F8b, F8c below).  Proved: the variant that (a) keeps only `Core`, (b) admits every frame of a
+multi-frame Modulation / FociSTM / GainSTM write that carries no transition (`PayloadOk`: BEGIN frames
+with transition mode NONE and no UPDATE, continuation frames without UPDATE — so every prefix = aborted
+send is covered), complete transition-carrying single frames, and all other tags, (c) requires of a
+`GainSwapSegment` payload that its target segment satisfies `GainOkAt` in the state where it is handled
+(true whenever no cut STM write to that segment precedes it).  Missing for the full statement: the
+firmware would have to set the belief at END+UPDATE (F8b) and `change_gain_segment` would have to call
+`validate_silencer_settings` (F8c).
+-/
+theorem silencer_inv_multiframe_partial (n t : Nat) (as : List Action) (s0 s : State)
+    (h0 : Fw.new n t = .ok s0) (hok : RunOkCore s0 as) (hr : run s0 as = .ok s) :
+    Core s ∧ ∃ rs rm, Obs.reqStmSeg s = .ok rs ∧ Obs.reqModSeg s = .ok rm ∧
+      ((s.strict = true ∨ (Obs.silencerFixedUpdateRateMode s = false ∧ strictBit s = true)) →
+        ∀ i p, Obs.silencerCompletionSteps s = .ok (i, p) →
+          max i p ≤ Obs.stmDiv s rs ∧ i ≤ Obs.modDiv s rm) :=
+  have hc := run_core as s0 (new_inv n t s0 h0).core hok s hr
+  ⟨hc, hc.guard_obs⟩
+
+/-- one step of the partial theorem, for reference: the handlers of the C08 alphabet re-establish `Core`
+under the flag discipline `PayloadOk` alone (multi-frame writes without transition included) -/
+theorem core_frame_partial (s s' : State) (f : Array Nat) (h : Core s) (hf : FrameOkCore s f)
+    (hr : ecatRecv s f = .ok s') : Core s' := ecatRecv_core s f h hf s' hr
+
+/-- **F8b counterexample** (kernel-checked): from `CPUEmulator::new`, FociSTM div 40 → S0 (Immediate),
+a FociSTM → S1 carrying an Immediate transition cut after its BEGIN frame, Silencer(10, 80, strict):
+all three acknowledged (ack = 3); the FPGA still requests S0 (reg 0) with division 40 while the CPU
+believes S1; completion steps phase = 80, flag = strict fixed-steps: 40 < 80 -/
+theorem f8b_counterexample :
+    summary (fromNew f8bTrace) = [3, 0, 1, 40, 65535, 0, 65535, 65535, 10, 80, 4, 1] := by
+  decide +kernel
+
+/-- **F8c counterexample** (kernel-checked, not in the list of known findings): FociSTM div 40 → S1
+*without* transition cut after its BEGIN frame, Silencer(10, 80, strict), GainSwapSegment(S1): all
+acknowledged; belief = request = S1 whose division register is 40 < 80 with strict fixed-steps mode -/
+theorem f8c_counterexample :
+    summary (fromNew f8cTrace) = [3, 1, 1, 65535, 40, 0, 65535, 65535, 10, 80, 4, 1] := by
+  decide +kernel
+
+/-! ## non-vacuity -/
+
+/-- the legal history of `Lemmas/SilGuardWitness.lean` runs without panic from `CPUEmulator::new` (summary
+after each action: ack, STM request register, STM belief, STM divisions 0/1, modulation request,
+modulation divisions 0/1, steps intensity/phase, silencer flag, CPU strict): its second frame is
+refused with 142 and changes nothing, the same request is accepted later (ack 4), update-rate mode
+(flag 1) leaves the CPU copies alone, and at the end requested STM segment 1 has division 100 ≥ 80 -/
+example : trailFromNew legalTrace =
+    [[1, 0, 0, 40, 65535, 0, 65535, 65535, 10, 40, 0, 1],
+     [142, 0, 0, 40, 65535, 0, 65535, 65535, 10, 40, 0, 1],
+     [3, 1, 1, 40, 100, 0, 65535, 65535, 10, 40, 0, 1],
+     [3, 1, 1, 40, 100, 0, 65535, 65535, 10, 40, 0, 1],
+     [4, 1, 1, 40, 100, 0, 65535, 65535, 10, 80, 4, 1],
+     [5, 1, 1, 40, 100, 0, 65535, 10, 10, 80, 4, 1],
+     [6, 1, 1, 40, 100, 0, 65535, 10, 10, 80, 1, 1],
+     [7, 1, 1, 40, 100, 0, 65535, 10, 10, 80, 4, 1]] := by decide +kernel
+
+/-- every action of the legal history satisfies the frame condition -/
+example : ∀ a ∈ legalTrace, ActionOk a := by decide +kernel
+
+/-- the cut BEGIN frames of F8b / F8c are indeed outside `FrameOk`; the F8c one is inside `PayloadOk` -/
+example : ¬ FrameOk (mkFrame 2 (fociFrame 1 1 0xFF 0xFFFF)) ∧ ¬ FrameOk (mkFrame 1 (fociFrame 1 1 0xFE 40)) ∧
+    PayloadOk (slot1 (mkFrame 1 (fociFrame 1 1 0xFE 40))) := by decide +kernel
+
+
+/-- the hypotheses of `silencer_inv_multiframe_partial` are satisfiable by a genuine multi-frame write:
+BEGIN frame and END frame of a FociSTM to segment 1 without transition, a strict silencer request, a
+FociSTM swap to segment 1 — `RunOkCore` holds from `CPUEmulator::new` (checked by the executable
+`runOkCoreB`, proved sound in `Lemmas/SilGuardWitness.lean`) -/
+example : ∃ s0, Fw.new 249 0 = .ok s0 ∧ RunOkCore s0 multiTrace :=
+  checkFromNew_sound multiTrace (by decide +kernel)
 
 end Autd3.C08
